@@ -133,6 +133,13 @@ def eval_point(pt, R):
             if N >= 3 and s != 0 and np.all(np.isfinite(w)):
                 same = same and abs(o.enbw - N * float(np.sum(w ** 2)) / s ** 2) <= 1e-12 * abs(o.enbw)
             R.check(same, 'window_object', {'name': name}, pt, [o.N, o.enbw], [N, None], 'Window object disagrees with the factory (samples, length or ENBW)', outs=(w, 'obj'))
+            if N >= 2 and np.all(np.isfinite(w)) and abs(s) > 1e-12:
+                # using the frequency-response getters must not change what the object reports
+                _ = o.response
+                _ = o.frequencies
+                str(o)
+                R.check(np.array_equal(np.asarray(o.data), w) and o.N == N and abs(o.mean_square - float(np.sum(w ** 2)) / N) <= 1e-12 * max(1e-300, float(np.sum(w ** 2)) / N),
+                        'window_object', {'name': name, 'after': 'response'}, pt, np.asarray(o.data), w, 'Window.data / mean_square changed after the frequency response was computed')
         except Exception as e:
             R.viol('window_object', {'name': name, 'exc': type(e).__name__}, pt, repr(e), None, 'Window raised')
         return
